@@ -3,7 +3,7 @@
 # existing suite over every crate depending on the patched crate with the baseline runner (nextest) with the patch only.
 # usage: confirm_full.sh <worktree> <seed>:<patched crate>:<demo crate>:<demo test filter> ...
 WT=$1; shift
-export CARGO_NET_OFFLINE=true CARGO_INCREMENTAL=0 TMPDIR=$WT/_tmp
+export CARGO_NET_OFFLINE=true CARGO_INCREMENTAL=0 TMPDIR=$WT/_tmp CARGO_BUILD_JOBS=6
 mkdir -p $TMPDIR
 clean() { find $TMPDIR -mindepth 1 -maxdepth 1 -exec rm -rf {} + 2>/dev/null; }
 for item in "$@"; do
@@ -25,6 +25,8 @@ for item in "$@"; do
     echo "== nextest done $(date +%H:%M)"
     clean
     git checkout -q -- . && git clean -fdq -e _seed -e target -e _tmp
+    # artifacts built in this worktree (not hard links into /repo/target) are only good for this seed's sources: drop them (disk)
+    find $WT/target/debug/deps $WT/target/debug/incremental -type f -links 1 -delete 2>/dev/null
   } > $LOG 2>&1
   echo "$SEED: $(grep -E 'test result' $LOG | head -2 | tr '\n' ' ' | cut -c1-120) | $(grep -E 'Summary' $LOG | tail -1)"
 done
